@@ -83,3 +83,12 @@ claim('C02',
       'before the every-function runs, every function of the in-place path goes through Rc::make_mut and contains no whole-payload '
       'copy or reallocation, consuming iterators drain unique handles, arguments travel by value.',
       'dominance (must-pass-through) + forbidden-callee census over the in-place function table')
+claim('C14',
+      'Decides an exact, reviewed inventory rather than panic-freedom for all inputs: every explicit panic site and every compiler-'
+      'inserted arithmetic assert in the call closure of the pure language (trait objects, fn pointers and std callbacks fanned out; the '
+      'I/O builtins excluded by table) is keyed without line numbers and either discharged by a sound class (unit-step counters, constant '
+      'divisors, dominating comparison with the right polarity, exit-count decrements) or listed with a one-line verdict; unlisted sites '
+      'and changed counts are violations. Also: NRes values are never silently discarded outside the reviewed idioms, control-flow error '
+      'variants are built only at reviewed sites, peek loops make progress. Termination in general, stack depth and dependency panics '
+      'are not decided.',
+      'call-graph reachability census with reviewed triage tables + guard-polarity dominance')
